@@ -8,7 +8,7 @@ From TI Require Import lib.Sched model.Locks model.LocksSpec model.LocksTie proo
 (** ** The encoding used by the correspondence loses nothing, and the two verdicts of
     [LocksTie.check] are consistent: a trace equal to the model's is accepted *)
 Lemma dec_enc_event e : dec_event (enc_event e) = Some e.
-Proof. destruct e; try destruct l; reflexivity. Qed.
+Proof. destruct e; try destruct l; try destruct h; reflexivity. Qed.
 
 Lemma dec_enc_trace tr :
   dec_trace (map (fun te => (fst te, enc_event (snd te))) tr) = Some tr.
